@@ -115,6 +115,7 @@ class FormsLeg(object):
                 "falsy": draw(st.sampled_from(sorted(FALSY))),
                 "gz_crlf": draw(st.booleans()),
                 "gz_members": draw(st.booleans()),
+                "verbose": draw(st.sampled_from([False, False, True])),
             }
 
         return case()
@@ -250,7 +251,7 @@ class FormsLeg(object):
             if form == "dataiterator":
                 # a DataIterator is already configured: its own transform is the one that applies
                 data = DataIterator(path, checklines=cl, transform=t)
-            db = gffutils.create_db(data, ":memory:", checklines=cl, transform=t, **dict(dbkw, **extra))
+            db = gffutils.create_db(data, ":memory:", checklines=cl, transform=t, verbose=bool(case.get("verbose")), **dict(dbkw, **extra))
             if t is not None and calls["n"] != n:
                 return Failure("create_db(form %s): transform called %d times for %d features" % (form, calls["n"], n),
                                sig={"kind": "transform-calls", "form": form})
@@ -269,6 +270,21 @@ class FormsLeg(object):
                 if dd:
                     return Failure("create_db(form %s) differs from create_db(path) (checklines=%d): %s" % (form, cl, dd),
                                    sig={"kind": "snapshot", "form": form})
+        # a DataIterator over a one-shot source, handed on together with a transform that keeps every feature: whether or not
+        # that transform is applied on top, nothing may get lost (create_db and update)
+        for maker in (lambda: (feature_from_line(l) for l in lines), lambda: gffutils.create_db(path, ":memory:", checklines=cl, **dbkw)):
+            it = DataIterator(maker(), checklines=cl)
+            db2 = gffutils.create_db(it, ":memory:", checklines=cl, transform=lambda f: f, **dbkw)
+            if db2.count_features_of_type() != n:
+                return Failure("create_db(DataIterator over a one-shot source, transform=identity): %d rows, expected %d"
+                               % (db2.count_features_of_type(), n), sig={"kind": "rows", "form": "dataiterator+transform"})
+        seed_line = "chrS\tsrc\tgene\t1\t2\t.\t+\t.\tID=seedonly"
+        db3 = gffutils.create_db(seed_line + "\n", ":memory:", from_string=True)
+        db3.update(DataIterator((feature_from_line(l) for l in lines), checklines=cl), transform=lambda f: f,
+                   merge_strategy="create_unique", **dbkw)
+        if db3.count_features_of_type() != n + 1:
+            return Failure("update(DataIterator over a generator, transform=identity): %d rows, expected %d" % (db3.count_features_of_type(), n + 1),
+                           sig={"kind": "rows", "form": "update-dataiterator+transform"})
         return None
 
 
